@@ -315,6 +315,17 @@ func (r *Run) Finish() int {
 		fmt.Printf("VIOLATION property=%s replay=%s\n", r.Prop, v.Replay)
 		fmt.Printf("  signature: %s\n  clause: %s\n", v.Sig, v.What)
 	}
+	// every listed finding of this property gets its line, also when this run (seed, tier, schedule)
+	// did not happen to reproduce it
+	if !r.Replaying() {
+		for i := range r.findings.Known {
+			f := &r.findings.Known[i]
+			if f.Property == r.Prop && !knownPrinted[f.Signature] {
+				knownPrinted[f.Signature] = true
+				fmt.Printf("KNOWN-FINDING: property=%s %s [%s] (0 occurrences in this run)\n", r.Prop, f.What, f.Signature)
+			}
+		}
+	}
 
 	// Inconclusive comes in two kinds.  Case-level: one scenario could not be decided (a generous
 	// watchdog fired on a loaded machine, a harness-side connection problem) while the others were.
